@@ -157,3 +157,39 @@ def replay_exporter_reuse(fl, FA, vals=None, seed=0, **kw):
     finally:
         fl.settings.alias = old
     return {"failed": False, "cases": cases, "distinct": cases}
+
+
+def replay_exporter_components(fl, FA, vals=None, seed=0, **kw):
+    """PythonExporter's component methods on components exported ON THEIR OWN - empty ones included (a variable without terms, a rule block without rules are
+    objects, not None): the code evaluates to an object with the same representation"""
+    iv0, iv1 = fl.InputVariable("a", minimum=0.0, maximum=1.0), fl.InputVariable("b", minimum=0.0, maximum=1.0, terms=[fl.Triangle("t", 0.0, 0.5, 1.0)])
+    ov0 = fl.OutputVariable("o", minimum=0.0, maximum=1.0)
+    ov1 = fl.OutputVariable("p", minimum=0.0, maximum=1.0, defuzzifier=fl.Centroid(10), aggregation=fl.Maximum(), terms=[fl.Triangle("u", 0.0, 0.5, 1.0)])
+    rb0, rb1 = fl.RuleBlock("empty"), fl.RuleBlock("rb", implication=fl.Minimum(), activation=fl.General(), rules=[fl.Rule.create("if b is t then p is u")])
+    e0 = fl.Engine("nothing")
+    e1 = fl.Engine("full", input_variables=[iv1], output_variables=[ov1], rule_blocks=[rb1])
+    items = [("input_variable", iv0), ("input_variable", iv1), ("output_variable", ov0), ("output_variable", ov1), ("rule_block", rb0), ("rule_block", rb1), ("engine", e0), ("engine", e1),
+             ("term", fl.Triangle("t", 0.0, 0.5, 1.0)), ("term", fl.Constant("c", 0.0)), ("rule", rb1.rules[0]), ("norm", fl.Minimum()), ("norm", None), ("activation", fl.General()), ("activation", None),
+             ("defuzzifier", fl.Centroid(10)), ("defuzzifier", None)]
+    cases, old = 0, fl.settings.alias
+    try:
+        for alias in ("fl", "", "*"):
+            fl.settings.alias = alias
+            for formatted in (False, True):
+                exp = fl.PythonExporter(formatted=formatted, encapsulated=False)
+                for meth, obj in items:
+                    cases += 1
+                    try:
+                        code = getattr(exp, meth)(obj)
+                        ns = {}
+                        exec(fl.representation.import_statement(), ns)
+                        back = eval(code, ns)
+                    except Exception as ex:  # noqa
+                        return {"failed": True, "class": "py-exec-error:component", "expected": "code that evaluates", "observed": f"{type(ex).__name__}: {ex}", "cases": cases,
+                                "call": f"PythonExporter(formatted={formatted}).{meth}({obj!r}) under alias {alias!r}"}
+                    if repr(back) != repr(obj):
+                        return {"failed": True, "class": "py-repr:component", "expected": repr(obj)[:200], "observed": repr(back)[:200], "cases": cases,
+                                "call": f"PythonExporter(formatted={formatted}).{meth}(...) under alias {alias!r}: the exported code {code[:80]!r} evaluates to something else"}
+    finally:
+        fl.settings.alias = old
+    return {"failed": False, "cases": cases, "distinct": cases}
